@@ -55,6 +55,14 @@ CLAIMED = {
          "configurations; results compared as sets with the model scan and with an independent 27-image brute force, stored vectors solved for lattice offsets.",
          "Lean kernel + three standard axioms; harness/driver; 3-D assembly of the per-direction lemmas checked per configuration; 3-body grid scan order not modelled.",
          "6/C03"),
+ "C11": ("Lean 4 proof about the passes of an executable model of OptionsHandler (accepted input is declared / has no missing REQUIRED / has only valid "
+         "values, i.e. the three rejection clauses in contrapositive form for every tree; optional options absent; default injection per leaf; bool literals) + "
+         "whole-tree correspondence with ProcessUserInput on every shipped calculator description",
+         "Theorems quantify over every description and user tree; the model is tied to the working tree by running the real OptionsHandler on all 27 shipped "
+         "xtp calculator files (links resolved by the real code) with generated user trees and comparing the complete result tree or the error kind and "
+         "named option; XML print/load round trips over metacharacters and typed-access literals are judged on the implementation's output.",
+         "Lean kernel + three standard axioms; harness/driver; expat and boost::lexical_cast external; list-section merge and 'nothing else' tied by correspondence only (partial).",
+         "6/C11"),
 }
 REASONS = {}
 
